@@ -531,6 +531,7 @@ func genSched(seed uint64, prop, tier, mode string) *Plan {
 			if o == nil {
 				o = drawCorpusObject(g, idx, KCert)
 			}
+			o = maybeSynth(g, idx, o, 0.3)
 			p.Objects = append(p.Objects, *o)
 			mine = append(mine, len(p.Objects)-1)
 		}
